@@ -161,6 +161,26 @@ def _multi_case(rng: Rng):
 def gen_cases(rng: Rng, tier):
     n = dict(quick=330, thorough=4400)[tier]
     big = tier == "thorough"
+    # closed-form families on grids that do NOT contain the end points of their interval ([0,1] for Wiener, [-1,1] for
+    # Legendre), and on sub-intervals / shifted ranges — the same structured cases in every run
+    N_ = 20
+    special = {
+        "wiener": [[Fraction(2 * i + 1, 2 * N_) for i in range(N_)],                       # cell centres
+                   [F(float(v)) for v in np.arange(0, 1, 0.05)],                           # np.arange(0, 1, 0.05): misses 1
+                   [F(float(v)) for v in (np.polynomial.legendre.leggauss(12)[0] + 1) / 2],  # Gauss nodes in (0,1)
+                   [Fraction(1, 5) + Fraction(i, 32) for i in range(17)],                  # sub-interval [0.2, 0.7]
+                   [Fraction(i, 16) for i in range(1, 17)]],                               # misses 0
+        "legendre": [[Fraction(-1, 2) + Fraction(i, 20) for i in range(17)],               # sub-interval of [-1,1]
+                     [F(float(v)) for v in np.polynomial.legendre.leggauss(9)[0]],         # open nodes
+                     [Fraction(i, 10) for i in range(0, 10)]],                             # [0, 0.9]
+        "fourier": [[Fraction(3) + Fraction(2 * i + 1, 16) for i in range(16)],            # cell centres of [3,5]
+                    [F(float(v)) for v in np.arange(0, 1, 0.05)],
+                    [Fraction(-7, 2) + Fraction(i * i, 64) for i in range(12)]],           # non-uniform
+    }
+    for fam_, grids in special.items():
+        for gi, g in enumerate(grids):
+            for add_ in (True, False):
+                yield dict(kind="sim", fam=fam_, n=[3, 5, 2, 4, 6][gi % 5], add=add_, norm=False, x=[rs(v) for v in g], structured=True)
     # boundary sizes of the B-spline family through _simulate_basis: n_functions in {degree-1, degree, degree+1},
     # with and without intercept, degree passed or left to its default (3); every degree, every run
     for p in range(1, 6):
@@ -720,6 +740,56 @@ def _cond_float(x, a, b, nfun, p):
     return best
 
 
+def _closed_form(fam, x, nfull):
+    """The defining closed forms, evaluated independently (NumPy, float64): rows 0..nfull-1 on the grid x.
+    wiener: sqrt(2) sin((k - 1/2) pi t), k = 1..; fourier on [min x, max x] = [a, a + L]: 1/sqrt(L), then
+    sqrt(2/L) cos(m th), sqrt(2/L) sin(m th) with th = 2 pi (t - a)/L - pi; legendre: Bonnet's recursion."""
+    x = np.asarray(x, dtype=float)
+    if fam == "wiener":
+        return np.array([math.sqrt(2.0) * np.sin((k - 0.5) * math.pi * x) for k in range(1, nfull + 1)])
+    if fam == "fourier":
+        a, L = x.min(), x.max() - x.min()
+        th = 2.0 * math.pi * (x - a) / L - math.pi
+        rows = []
+        for k in range(nfull):
+            m_ = (k + 1) // 2
+            rows.append(np.full_like(x, 1.0 / math.sqrt(L)) if k == 0 else
+                        (math.sqrt(2.0 / L) * np.cos(m_ * th) if k % 2 == 1 else math.sqrt(2.0 / L) * np.sin(m_ * th)))
+        return np.array(rows)
+    if fam == "legendre":
+        rows = [np.ones_like(x), x.copy()]
+        for n_ in range(1, nfull):
+            rows.append(((2 * n_ + 1) * x * rows[n_] - n_ * rows[n_ - 1]) / (n_ + 1))
+        return np.array(rows[:nfull])
+    return None
+
+
+def _oracle_closed_form(case, raw, entry, bad):
+    """Pointwise closed form of the Legendre / Fourier / Wiener values on ANY grid (end points of [0,1], [-1,1] or of
+    the spanned interval included or not)."""
+    fam = case["fam"]
+    if fam not in ("wiener", "fourier", "legendre"):
+        return
+    add = case.get("add", True)
+    nfull = case["n"] if add else case["n"] + 1
+    xs = fl(_Fv(case["x"]))
+    if fam == "fourier" and max(xs) == min(xs):
+        return
+    want = _closed_form(fam, xs, nfull)
+    want = want if add else want[1:]
+    V = np.array(raw, dtype=float)
+    if V.shape != want.shape:
+        bad("shape", f"{fam}: shape {V.shape} vs {want.shape}", entry)
+        return
+    amax = max(abs(v) for v in xs) if fam == "wiener" else 1.0
+    tol = 1e-11 * (1 + (nfull + 1) * math.pi * amax) * np.maximum(1.0, np.abs(want))
+    err = np.abs(V - want)
+    if not np.all(err <= tol):
+        i, j = np.unravel_index(np.argmax(err - tol), err.shape)
+        span = f"grid in [{min(xs)!r}, {max(xs)!r}]"
+        bad("closed_form", f"{fam} function {i + (0 if add else 1)} at t={xs[j]!r} ({span}): {V[i, j]!r} vs closed form {want[i, j]!r}", entry)
+
+
 def _oracle_bs(V, xs, a, b, nfun, p, entry, bad, row0=0):
     """V: rows row0..nfun-1 of the nfun-function basis (row0 = 1: the basis without its first function)."""
     if row0:
@@ -808,6 +878,7 @@ def oracle(case, impl):
             return vs
         if kind == "basis1" and impl["n_obs"] != case["n"]:
             bad("shape", f"n_obs {impl['n_obs']}", entry)
+        _oracle_closed_form(case, impl["raw"], "_basis_" + fam if kind == "sim" else entry, bad)
         if kind == "sim" and not case["add"]:
             # dropping the intercept removes exactly the first function of the (n+1)-family
             if not np.array_equal(np.array(impl["v"]), np.array(impl["other"]), equal_nan=True):
@@ -847,6 +918,7 @@ def oracle(case, impl):
             _oracle_bs(impl["v"], _Fv(case["x"]), a, b, nfull, case["p"], entry, bad, row0=0 if case["add"] else 1)
     elif kind == "ortho":
         fam = case["fam"]
+        _oracle_closed_form(case, impl["v"], "_basis_" + fam, bad)
         G = np.array(impl["G"])
         nfn = len(G)
         if fam == "legendre":
@@ -944,6 +1016,8 @@ def classify(case, impl):
     if case["kind"] == "multi":
         tags.append("multi:dims=" + "+".join(str(len(c["n"])) for c in case["comps"]))
         tags.append(f"multi:degree={case.get('p')},domain={'explicit' if 'dmin' in case else 'default'}")
+    if case.get("structured"):
+        tags.append("grid:open-or-sub-interval(structured)")
     if case.get("labels"):
         tags.append("labels:not-in-sorted-order")
     if case.get("iso"):
